@@ -282,7 +282,7 @@ fn k_mca_4_deep_verify_arms() {
     // the two stamps are different revisions in general, and it is `verified_at` the inputs are asked about
     let va = if vk::any() { Revision::start() } else { Revision::start().next() };
     let ca = if vk::any() { Revision::start() } else { va };
-    let local = ZalsaLocal::new();
+    let local = crate::zalsa_local::verif::local_static();
     let me = vk::key(0, 5);
     let guard = crate::function::sync::verif::fake_guard(&z, &local, me.ingredient_index(), me.key_index());
     let which: u8 = vk::any();
@@ -328,7 +328,7 @@ fn k_mca_4_deep_verify_arms() {
 fn k_mca_4c_cycle_participant() {
     let mut z = zalsa_with_oracles(1, false);
     z.runtime_mut().new_revision();
-    let local = ZalsaLocal::new();
+    let local = crate::zalsa_local::verif::local_static();
     let me = vk::key(0, 5);
     let guard = crate::function::sync::verif::fake_guard(&z, &local, me.ingredient_index(), me.key_index());
     let stamp = crate::cycle::IterationStamp::initial(0);
@@ -365,7 +365,7 @@ fn k_mca_5_epoch() {
     }
     let cc_now = z.runtime().cancellation_count();
     assert!(cc_now == bump as u8);
-    let local = ZalsaLocal::new();
+    let local = crate::zalsa_local::verif::local_static();
     let cc_memo: u8 = vk::any();
     let stamp = IterationStamp::initial(cc_memo);
     let h = header(z.current_revision(), Durability::LOW, Revision::start(), false,
@@ -388,7 +388,7 @@ fn k_mca_5_epoch() {
 #[cfg_attr(salsa_verif_replay, test)]
 fn k_mca_5f_final_memos_pass() {
     let z = zalsa_with_oracles(1, false);
-    let local = ZalsaLocal::new();
+    let local = crate::zalsa_local::verif::local_static();
     let vf: bool = vk::any();
     let h = header(z.current_revision(), vk::any_durability(), Revision::start(), vf, empty_derived());
     assert!(h.validate_may_be_provisional(&z, &local, vk::key(0, 1)));
@@ -406,7 +406,7 @@ fn k_mca_5f_final_memos_pass() {
 #[cfg_attr(kani, kani::unwind(4))]
 #[cfg_attr(salsa_verif_replay, test)]
 fn k_mca_6_cold_cycle_changed() {
-    let local = ZalsaLocal::new();
+    let local = crate::zalsa_local::verif::local_static();
     let fix: bool = vk::any();
     let r = maybe_changed_after_cold_cycle(&local, vk::key(0, 1),
         if fix { CycleRecoveryStrategy::Fixpoint } else { CycleRecoveryStrategy::FallbackImmediate });
